@@ -14,6 +14,7 @@ mod fifo;
 mod gen;
 mod p01;
 mod p02;
+mod p05;
 mod p06;
 mod p07;
 mod p08;
@@ -44,6 +45,7 @@ fn modules() -> Vec<Module> {
     vec![
         ("C01", p01::run_all, p01::checks),
         ("C02", p02::run_all, p02::checks),
+        ("C05", p05::run_all, p05::checks),
         ("C06", p06::run_all, p06::checks),
         ("C07", p07::run_all, p07::checks),
         ("C08", p08::run_all, p08::checks),
